@@ -1,1 +1,318 @@
-def main : IO Unit := IO.println "stub"
+/-
+  Driver for C13: reads one JSON case per line on stdin, prints one JSON observation per line.
+
+  {"kind":"pipe", "steps":[[tag, STEPDEF]…], "expr":EXPR, "options":[[key, V]…], "inputs":[V…], "source":BPARAM}
+  {"kind":"helper", "name":h, "args":[[param, BINDING]…], "options":[[key, V]…], "input":V}
+
+  STEPDEF  {"k":"dec","prim":n,"params":[[name,BPARAM]…]}    @pipeline_step def f(x, name=BPARAM…): return prim(x, name…)
+           {"k":"free","name":n,"params":[…]}                the same with an uninterpreted body
+           {"k":"plain","prim":n} | {"k":"plainfree","name":n}   a plain callable
+           {"k":"ident"}                                     `_identity` / `Identity`
+           {"k":"optfn","key":K,"default":V?}                 Option(K[, default]) holding a callable
+           {"k":"helper","name":h,"args":[[param,BINDING]…]}  labrea.functions.h(…)
+           {"k":"nested","expr":EXPR}                         PipelineStep(<pipeline>)
+  EXPR     ["E"] Pipeline() | ["S",tag] a PipelineStep | ["C",tag] a plain callable / Evaluatable
+           | ["+",L,R] | ["K",tag] Pipeline(step) | ["K",tag,R] Pipeline(step, rest)
+  BPARAM   {"c":V} | {"o":key} | {"o":key,"d":V}
+  BINDING  BPARAM | {"many":[BPARAM…]} | {"dict":[[name,BPARAM]…]}
+  V        null | true | false | int | "str" | [V…] | {"t":[…]} tuple | {"s":[…]} set | {"d":[[k,v]…]} dict
+           | {"Y":sym-op,"a":[…],"k":[[n,v]…]} symbolic | {"R":f,"a":[…],"k":[…]} record of a free function
+           | {"F":name,"a":[…],"k":[…]} named callable | {"M":1} MISSING | {"T":name} class
+-/
+import Lean.Data.Json
+import LabreaModel.PipelineLL
+import LabreaModel.Helpers
+open Lean
+open Labrea.PipelineLL Labrea.Helpers
+
+namespace Drv
+
+/-- the Python functions the harness uses as step bodies / function arguments (same table in
+    harness/props/C13.py, `PRIMS`) -/
+def v (n : String) : Tm := .var n
+def prims : List (String × List String × Tm) := [
+  ("add", ["x", "k"], .binop "add" (v "x") (v "k")),
+  ("sub", ["x", "k"], .binop "sub" (v "x") (v "k")),
+  ("rsub", ["x", "k"], .binop "sub" (v "k") (v "x")),
+  ("mul", ["x", "k"], .binop "mult" (v "x") (v "k")),
+  ("floordiv", ["x", "k"], .binop "floordiv" (v "x") (v "k")),
+  ("neg", ["x"], .unop "usub" (v "x")),
+  ("len", ["x"], .call (.glob "builtins.len") (.pos (v "x") .nil)),
+  ("wrap", ["x"], .call (.glob "builtins.list") (.pos (.tuple (.pos (v "x") .nil)) .nil)),
+  ("eqk", ["x", "k"], .binop "eq" (v "x") (v "k")),
+  ("is_pos", ["x"], .binop "gt" (v "x") (.int 0)),
+  ("is_even", ["x"], .binop "eq" (.binop "mod" (v "x") (.int 2)) (.int 0)),
+  ("inc", ["x"], .binop "add" (v "x") (.int 1)),
+  ("dup", ["x"], .call (.glob "builtins.list") (.pos (.tuple (.pos (v "x") (.pos (v "x") .nil))) .nil)),
+  ("plus", ["a", "b"], .binop "add" (v "a") (v "b")),
+  ("minus", ["a", "b"], .binop "sub" (v "a") (v "b")),
+  ("kv_swap", ["k", "v"], .tuple (.pos (v "v") (.pos (v "k") .nil))),
+  ("kv_inc", ["k", "v"], .tuple (.pos (v "k") (.pos (.binop "add" (v "v") (.int 1)) .nil))),
+  ("v_pos", ["k", "v"], .binop "gt" (v "v") (.int 0)),
+  ("kw_pair", ["a", "b"], .tuple (.pos (v "a") (.pos (v "b") .nil)))
+]
+
+def cx : Ctx := specCtx prims
+
+/-! ### JSON → values -/
+
+partial def toPV (j : Json) : Except String PV :=
+  match j with
+  | .null => pure .none
+  | .bool b => pure (.bool b)
+  | .num _ => do
+    let i ← j.getInt?
+    pure (.int i)
+  | .str s => pure (.str s)
+  | .arr a => do
+    let xs ← a.toList.mapM toPV
+    pure (.list xs)
+  | .obj _ =>
+    let get (k : String) : Option Json := (j.getObjVal? k).toOption
+    let vals (k : String) : Except String (List PV) :=
+      match get k with
+      | some (.arr a) => a.toList.mapM toPV
+      | _ => pure []
+    let kws (k : String) : Except String (List (String × PV)) :=
+      match get k with
+      | some (.arr a) => a.toList.mapM fun e => do
+          let n ← (← e.getArrVal? 0).getStr?
+          let x ← toPV (← e.getArrVal? 1)
+          pure (n, x)
+      | _ => pure []
+    match get "t", get "s", get "d", get "Y", get "R", get "F", get "M", get "T" with
+    | some _, _, _, _, _, _, _, _ => do pure (.tuple (← vals "t"))
+    | _, some _, _, _, _, _, _, _ => do pure (.set (← vals "s"))
+    | _, _, some (.arr a), _, _, _, _, _ => do
+      let kvs ← a.toList.mapM fun e => do
+        let k ← toPV (← e.getArrVal? 0)
+        let x ← toPV (← e.getArrVal? 1)
+        pure (k, x)
+      pure (.dict kvs)
+    | _, _, _, some (.str op), _, _, _, _ => do pure (.sym op (← vals "a") (← kws "k"))
+    | _, _, _, _, some (.str f), _, _, _ => do pure (.record f (← vals "a") (← kws "k"))
+    | _, _, _, _, _, some (.str f), _, _ => do pure (.fn f (← vals "a") (← kws "k"))
+    | _, _, _, _, _, _, some _, _ => pure .missing
+    | _, _, _, _, _, _, _, some (.str n) => pure (.type n)
+    | _, _, _, _, _, _, _, _ => throw s!"bad value {j.compress}"
+
+mutual
+def ofPV : PV → Json
+  | .none => .null
+  | .bool b => .bool b
+  | .int i => .num (JsonNumber.fromInt i)
+  | .str s => .str s
+  | .list xs => .arr (ofPVs xs).toArray
+  | .tuple xs => Json.mkObj [("t", .arr (ofPVs xs).toArray)]
+  | .set xs => Json.mkObj [("s", .arr (ofPVs xs).toArray)]
+  | .dict kvs => Json.mkObj [("d", .arr (ofDict kvs).toArray)]
+  | .sym op a k => Json.mkObj [("Y", .str op), ("a", .arr (ofPVs a).toArray), ("k", .arr (ofKw k).toArray)]
+  | .record f a k => Json.mkObj [("R", .str f), ("a", .arr (ofPVs a).toArray), ("k", .arr (ofKw k).toArray)]
+  | .fn f a k => Json.mkObj [("F", .str f), ("a", .arr (ofPVs a).toArray), ("k", .arr (ofKw k).toArray)]
+  | .clo _ _ _ => Json.mkObj [("clo", .num 1)]
+  | .comp fs => Json.mkObj [("comp", .arr (ofPVs fs).toArray)]
+  | .missing => Json.mkObj [("M", .num 1)]
+  | .type n => Json.mkObj [("T", .str n)]
+  | .exc c => Json.mkObj [("exc", .str c)]
+def ofPVs : List PV → List Json
+  | [] => []
+  | x :: xs => ofPV x :: ofPVs xs
+def ofKw : List (String × PV) → List Json
+  | [] => []
+  | (k, x) :: xs => Json.arr #[.str k, ofPV x] :: ofKw xs
+def ofDict : List (PV × PV) → List Json
+  | [] => []
+  | (k, x) :: xs => Json.arr #[ofPV k, ofPV x] :: ofDict xs
+end
+
+def errName : Err → String
+  | .evaluation => "EvaluationError"
+  | .keyNotFound => "KeyNotFoundError"
+  | .insufficient => "InsufficientInformationError"
+  | .raised c => c
+
+def ofRes : Except Err PV → Json
+  | .ok x => Json.mkObj [("ok", ofPV x)]
+  | .error e => Json.mkObj [("err", .str (errName e))]
+
+def ofKeys : Except Err Keys → Json
+  | .ok ks => Json.mkObj [("ok", .arr (ks.map Json.str).toArray)]
+  | .error e => Json.mkObj [("err", .str (errName e))]
+
+/-! ### JSON → model objects -/
+
+def getOpts (j : Json) : Except String Opts := do
+  let a ← (← j.getObjVal? "options").getArr?
+  a.toList.mapM fun e => do
+    let k ← (← e.getArrVal? 0).getStr?
+    let x ← toPV (← e.getArrVal? 1)
+    pure (k, x)
+
+def toBParam (j : Json) : Except String BParam :=
+  match (j.getObjVal? "c").toOption, (j.getObjVal? "o").toOption with
+  | some c, _ => do pure (.const (← toPV c))
+  | _, some (.str key) =>
+    match (j.getObjVal? "d").toOption with
+    | some d => do pure (.opt key (some (← toPV d)))
+    | none => pure (.opt key none)
+  | _, _ => throw s!"bad parameter {j.compress}"
+
+def toBinding (j : Json) : Except String Binding :=
+  match (j.getObjVal? "many").toOption, (j.getObjVal? "dict").toOption with
+  | some (.arr a), _ => do pure (.many (← a.toList.mapM toBParam))
+  | _, some (.arr a) => do
+    let ps ← a.toList.mapM fun e => do
+      let n ← (← e.getArrVal? 0).getStr?
+      let b ← toBParam (← e.getArrVal? 1)
+      pure (n, b)
+    pure (.dict ps)
+  | _, _ => do pure (.one (← toBParam j))
+
+def namedParams (j : Json) (field : String) : Except String (List (String × Json)) :=
+  match (j.getObjVal? field).toOption with
+  | some (.arr a) => a.toList.mapM fun e => do
+      let n ← (← e.getArrVal? 0).getStr?
+      let b ← e.getArrVal? 1
+      pure (n, b)
+  | _ => pure []
+
+abbrev St := Step Opts PV
+abbrev Pl := Pipeline Opts PV
+
+def callFn (f : PV) : List PV → List (String × PV) → Except Err PV :=
+  fun pos kw => callV cx FUEL f pos kw
+
+def plainStep (tag : Nat) (f : PV) : St :=
+  .opaque tag (fun _ => some (fun x => callFn f [x] [])) (fun _ => .ok []) (fun _ => .ok [])
+
+def optFnStep (tag : Nat) (key : String) (d : Option PV) : St :=
+  let p := (BParam.opt key d).toParam
+  .opaque tag (fun o => (p.eval o).map fun f => fun x => callFn f [x] []) p.keys p.explain
+
+mutual
+partial def toStep (defs : List (Nat × Json)) (tag : Nat) (j : Json) : Except String St := do
+  let k ← (← j.getObjVal? "k").getStr?
+  match k with
+  | "dec" => do
+    let prim ← (← j.getObjVal? "prim").getStr?
+    let ps ← (← namedParams j "params").mapM fun e => do pure (e.1, (← toBParam e.2).toParam)
+    pure (.partialApp tag (callFn (.fn ("prim:" ++ prim) [] [])) [] ps)
+  | "free" => do
+    let n ← (← j.getObjVal? "name").getStr?
+    let ps ← (← namedParams j "params").mapM fun e => do pure (e.1, (← toBParam e.2).toParam)
+    pure (.partialApp tag (callFn (.fn ("free:" ++ n) [] [])) [] ps)
+  | "plain" => do
+    let prim ← (← j.getObjVal? "prim").getStr?
+    pure (plainStep tag (.fn ("prim:" ++ prim) [] []))
+  | "plainfree" => do
+    let n ← (← j.getObjVal? "name").getStr?
+    pure (plainStep tag (.fn ("free:" ++ n) [] []))
+  | "ident" => pure .identity
+  | "optfn" => do
+    let key ← (← j.getObjVal? "key").getStr?
+    match (j.getObjVal? "default").toOption with
+    | some d => do pure (optFnStep tag key (some (← toPV d)))
+    | none => pure (optFnStep tag key none)
+  | "helper" => do
+    let h ← (← j.getObjVal? "name").getStr?
+    let bs ← (← namedParams j "args").mapM fun e => do pure (e.1, ← toBinding e.2)
+    pure (helperStep cx tag h bs)
+  | "nested" => do
+    let e ← j.getObjVal? "expr"
+    match ← toOperand defs e with
+    | .pipeline q => pure (Pipeline.asStep tag q)
+    | _ => throw "nested: not a pipeline"
+  | _ => throw s!"bad step kind {k}"
+
+partial def stepOfTag (defs : List (Nat × Json)) (tag : Nat) : Except String St :=
+  match defs.find? (fun d => d.1 == tag) with
+  | some (_, j) => toStep defs tag j
+  | none => throw s!"unknown step {tag}"
+
+partial def toOperand (defs : List (Nat × Json)) (e : Json) : Except String (Operand Opts PV) := do
+  let a ← e.getArr?
+  let hd ← (← e.getArrVal? 0).getStr?
+  match hd with
+  | "E" => pure (.pipeline Pipeline.new)
+  | "S" => do
+    let s ← stepOfTag defs (← (← e.getArrVal? 1).getNat?)
+    pure (.step s)
+  | "C" => do
+    let s ← stepOfTag defs (← (← e.getArrVal? 1).getNat?)
+    pure (.other s)
+  | "K" => do
+    let s ← stepOfTag defs (← (← e.getArrVal? 1).getNat?)
+    if a.size > 2 then
+      match ← toOperand defs (← e.getArrVal? 2) with
+      | .pipeline r => pure (.pipeline (Pipeline.init s (some r)))
+      | _ => throw "K: rest is not a pipeline"
+    else pure (.pipeline (Pipeline.init s none))
+  | "+" => do
+    let l ← toOperand defs (← e.getArrVal? 1)
+    let r ← toOperand defs (← e.getArrVal? 2)
+    match l with
+    | .pipeline p => pure (.pipeline (p.addOperand r))
+    | .step s => pure (.pipeline (s.addOperand r))
+    | .other _ => throw "left operand of + is a plain callable"
+  | _ => throw s!"bad expr {e.compress}"
+end
+
+def iterTag (s : St) : Json :=
+  match s.tag? with
+  | some t => .num (JsonNumber.fromNat t)
+  | none => .str "Id"
+
+def runPipe (j : Json) : Except String Json := do
+  let defsJ ← (← j.getObjVal? "steps").getArr?
+  let defs ← defsJ.toList.mapM fun e => do
+    let t ← (← e.getArrVal? 0).getNat?
+    pure (t, ← e.getArrVal? 1)
+  let o ← getOpts j
+  let inputs ← (← (← j.getObjVal? "inputs").getArr?).toList.mapM toPV
+  let op ← toOperand defs (← j.getObjVal? "expr")
+  match op with
+  | .pipeline p =>
+    let base : List (String × Json) := [
+      ("iter", .arr (p.iter.map iterTag).toArray),
+      ("empty", .bool p.empty),
+      ("tf", .arr (inputs.map fun x => ofRes (p.transform x o)).toArray),
+      ("keys", ofKeys (p.keys o)),
+      ("explain", ofKeys (p.explain o))]
+    match (j.getObjVal? "source").toOption with
+    | some sj => do
+      let e := (← toBParam sj).toParam
+      pure (Json.mkObj (base ++ [("apply", ofRes (applyEval e p o)), ("akeys", ofKeys (applyKeys e p o)),
+        ("aexplain", ofKeys (applyExplain e p o))]))
+    | none => pure (Json.mkObj base)
+  | _ => throw "top-level expression is not a pipeline"
+
+def runHelperCase (j : Json) : Except String Json := do
+  let h ← (← j.getObjVal? "name").getStr?
+  let bs ← (← namedParams j "args").mapM fun e => do pure (e.1, ← toBinding e.2)
+  let o ← getOpts j
+  let x ← toPV (← j.getObjVal? "input")
+  let s := helperStep cx 0 h bs
+  pure (Json.mkObj [("tf", ofRes (s.transform x o)), ("keys", ofKeys (s.keys o)), ("explain", ofKeys (s.explain o))])
+
+def runLine (line : String) : String :=
+  match Json.parse line with
+  | .error e => (Json.mkObj [("driver_error", .str e)]).compress
+  | .ok j =>
+    let r := do
+      let kind ← (← j.getObjVal? "kind").getStr?
+      if kind == "pipe" then runPipe j else if kind == "helper" then runHelperCase j else throw "bad kind"
+    match r with
+    | .ok out => out.compress
+    | .error e => (Json.mkObj [("driver_error", .str e)]).compress
+
+end Drv
+
+partial def loop (stdin : IO.FS.Stream) : IO Unit := do
+  let line ← stdin.getLine
+  if line.isEmpty then return
+  let l := String.ofList (line.toList.filter fun c => c != '\n' && c != '\r')
+  if !l.isEmpty then IO.println (Drv.runLine l)
+  loop stdin
+
+def main : IO Unit := do
+  loop (← IO.getStdin)
